@@ -1,17 +1,91 @@
-/* Interposition header: included first in every harness TU that wraps a repo
-   file. Only preprocessor-level redirection; the repo sources are untouched. */
+/* Interposition header: included first (gcc -include) in every repo TU the
+   harness compiles, and at the top of every harness TU that wraps a repo file.
+   Only preprocessor-level redirection; the repo sources are untouched.
+   Every system/library header the repo uses is included HERE, before the
+   macros exist, so that later #includes are no-ops and no declaration is
+   rewritten. */
 #ifndef INTERPOSE_H
 #define INTERPOSE_H
 #ifndef _GNU_SOURCE
 #define _GNU_SOURCE
 #endif
+#include <arpa/inet.h>
+#include <arpa/nameser.h>
+#include <assert.h>
+#include <ctype.h>
+#include <errno.h>
+#include <fcntl.h>
+#include <glob.h>
+#include <libgen.h>
+#include <limits.h>
+#include <malloc.h>
+#include <netdb.h>
+#include <netinet/in.h>
+#include <netinet/tcp.h>
+#include <nettle/hmac.h>
+#include <nettle/md5.h>
+#include <nettle/sha.h>
+#include <openssl/asn1.h>
+#include <openssl/err.h>
+#include <openssl/md5.h>
+#include <openssl/rand.h>
+#include <openssl/ssl.h>
+#include <openssl/x509v3.h>
+#include <poll.h>
+#include <pthread.h>
+#include <regex.h>
+#include <resolv.h>
+#include <signal.h>
+#include <stdarg.h>
+#include <stddef.h>
 #include <stdint.h>
 #include <stdio.h>
 #include <stdlib.h>
 #include <string.h>
+#include <strings.h>
+#include <sys/socket.h>
+#include <sys/stat.h>
+#include <sys/syscall.h>
 #include <sys/time.h>
+#include <sys/types.h>
+#include <sys/wait.h>
+#include <syslog.h>
 #include <time.h>
 #include <unistd.h>
-#include <pthread.h>
-#include <openssl/rand.h>
+
+/* runtime in h_world.c */
+void *h_malloc(size_t n, const char *fn, int line);
+void *h_calloc(size_t a, size_t b, const char *fn, int line);
+void *h_realloc(void *p, size_t n, const char *fn, int line);
+char *h_strdup(const char *s, const char *fn, int line);
+void h_free(void *p, const char *fn, int line);
+int h_gettimeofday(struct timeval *tv, void *tz);
+time_t h_time(time_t *t);
+unsigned h_sleep(unsigned n);
+int h_rand_bytes(unsigned char *buf, int n);
+int h_regcomp(regex_t *preg, const char *pattern, int cflags);
+int h_regexec(const regex_t *preg, const char *s, size_t nmatch, regmatch_t pmatch[], int eflags);
+void h_regfree(regex_t *preg);
+int h_pthread_create(pthread_t *th, const pthread_attr_t *attr, void *(*fn)(void *), void *arg);
+int h_cond_timedwait(pthread_cond_t *c, pthread_mutex_t *m, const struct timespec *t);
+
+#ifndef H_NO_INTERPOSE
+#define malloc(n) h_malloc((n), __func__, __LINE__)
+#define calloc(a, b) h_calloc((a), (b), __func__, __LINE__)
+#define realloc(p, n) h_realloc((p), (n), __func__, __LINE__)
+#define strdup(s) h_strdup((s), __func__, __LINE__)
+#define free(p) h_free((p), __func__, __LINE__)
+#define gettimeofday(tv, tz) h_gettimeofday((tv), (tz))
+#define time(p) h_time(p)
+#define sleep(n) h_sleep(n)
+#undef RAND_bytes
+#define RAND_bytes(b, n) h_rand_bytes((b), (n))
+#define regcomp(p, s, f) h_regcomp((p), (s), (f))
+#define regexec(p, s, n, m, f) h_regexec((p), (s), (n), (m), (f))
+#define regfree(p) h_regfree(p)
+#ifdef H_INTERPOSE_THREADS
+#define pthread_create(t, a, f, x) h_pthread_create((t), (a), (f), (x))
+#define pthread_cond_timedwait(c, m, t) h_cond_timedwait((c), (m), (t))
+#endif
+#endif
 #endif
